@@ -38,6 +38,9 @@ fn emit(v: serde_json::Value) {
     let _ = l.flush();
 }
 
+/// Process deaths (per child) after which the remaining runs are skipped.
+pub const MAX_DEATHS: u64 = 12;
+
 pub struct Loaded {
     pub tasks: Vec<PlanTask>,
     pub refs: References,
@@ -318,6 +321,7 @@ pub fn child_main(a: ChildArgs) -> i32 {
     let mut inter_nontrivial: BTreeSet<u64> = BTreeSet::new();
     let mut samples: Vec<serde_json::Value> = vec![];
     let mut harness_errors: Vec<String> = vec![];
+    let mut skipped_after_deaths = 0u64;
 
     for stratum in a.strata.iter().map(|s| s.as_str()) {
         let n = world.len(stratum, a.random_runs);
@@ -328,6 +332,12 @@ pub fn child_main(a: ChildArgs) -> i32 {
                     continue;
                 }
             } else if run % a.of != a.index {
+                continue;
+            }
+            if st.deaths >= MAX_DEATHS && a.only.is_none() {
+                // a tree on which run after run kills its process is broken beyond doubt; each death
+                // costs seconds (limits, deadlock detection), so the rest of the exploration is skipped
+                skipped_after_deaths += 1;
                 continue;
             }
             emit(json!({"s": stratum, "run": run}));
@@ -433,7 +443,7 @@ pub fn child_main(a: ChildArgs) -> i32 {
         "tasks_compared": st.tasks_compared, "tasks_faulted": st.tasks_faulted, "nontrivial_runs": st.nontrivial,
         "distinct_interleavings": inter_all.len(), "distinct_nontrivial": inter_nontrivial.len(), "fingerprints": fp_path,
         "audits": st.audits, "audit_mismatch": st.audit_mismatch, "minimise_execs": st.minimise_execs,
-        "violations_total": violations_total, "solos_computed": refs.computed, "deaths": st.deaths,
+        "violations_total": violations_total, "solos_computed": refs.computed, "deaths": st.deaths, "skipped_after_deaths": skipped_after_deaths,
         "samples": samples, "harness_errors": harness_errors,
     }}));
     let _ = fnv_str;
